@@ -303,6 +303,9 @@ func main() {
 			}
 			sumVotes.Add(&sumVotes, big.NewInt(v))
 		}
+		if wellFormed {
+			st.Hist["wellformed-round:"+o.Verdict]++
+		}
 		if o.Verdict == "ROk" {
 			report := func(s, what string) {
 				if !wellFormed {
@@ -331,6 +334,9 @@ func main() {
 			}
 			for _, e := range o.Map {
 				sum.Add(&sum, big.NewInt(e[1]))
+			}
+			if tot := new(big.Int).Add(&sum, big.NewInt(o.Change)); wellFormed && tot.Cmp(big.NewInt(c.Reward)) > 0 {
+				st.Hist["note:map+change>reward"]++ // abnormal-CR credits: burnt and also left in change
 			}
 			// map total <= paid + uncounted abnormal-CR credits (<= reward/4 + rounding), when votes add up
 			if wellFormed && sumVotes.Cmp(big.NewInt(c.Total)) <= 0 {
